@@ -129,6 +129,30 @@ def check_instance(rp):
     return d, S, out, info, problems
 
 
+def star_descs(rng, count):
+    """Targeted: customers that all have both depot arcs, too few vehicles / positions for them, the model queried BEFORE
+    the heuristic: make_feasible then only adds dummy vehicles (with the high cost as surcharge) and no arc -- the default
+    penalty requested afterwards must cover the surcharges."""
+    INF = float("inf")
+    out = []
+    for _ in range(count):
+        k = rng.randint(2, 3)
+        cust = [f"c{i + 1}" for i in range(k)]
+        nodes = [("D", 0, 0, INF)] + [(c, rng.randint(0, 2), 0, INF) for c in cust]
+        arcs = []
+        for c in cust:
+            arcs.append(("D", c, rng.randint(0, 2), rng.randint(0, 3)))
+            arcs.append((c, "D", rng.randint(0, 2), rng.randint(0, 3)))
+        if rng.random() < 0.4:
+            arcs.append((cust[0], cust[1], 1, rng.randint(0, 3)))
+        rng.shuffle(arcs)
+        out.append({"nodes": nodes, "depot_first": True, "arcs": arcs, "time_points": [0, 1, 2, 3], "V": rng.choice([1, 1, 2]),
+                    "L": 3, "strict": rng.random() < 0.5, "routes": [["D", c, "D"] for c in cust[:1]], "vehicle_cap": 10,
+                    "initial_loading": 5, "make_feasible": rng.choice([1000, 10 ** 6]), "mf_mode": "after_query",
+                    "np_seed": rng.randrange(2 ** 31), "cost_scale": 1})
+    return out
+
+
 def instance_fails(kind, desc, sig):
     rp = fh.BUILDERS[kind](desc)
     try:
@@ -160,6 +184,25 @@ def run(ctx):
         for sig, msg, extra in check_instance(rp0)[4]:
             ctx.violation(f"{sig}/{kind0}/corner", f"{kind0}: {msg}",
                           dict(fh.describe({"kind": kind0, "desc": desc0, "rp": rp0}), **extra), True)
+    n_star = 0
+    for desc in star_descs(rng, 24 if ctx.quick else 400):
+        for kind in ("seq", "arc", "path"):
+            try:
+                rp = fh.BUILDERS[kind](desc)
+                if not 1 <= int(rp.get_num_variables()) <= max_n:
+                    continue
+            except Exception:  # noqa
+                continue
+            n_star += 1
+            for sig, msg, extra in check_instance(rp)[4]:
+                full = f"{sig}/{kind}"
+                if full in reported:
+                    continue
+                reported.add(full)
+                ctx.violation(full, f"{kind} (all customers on depot arcs, queried before the heuristic): {msg}",
+                              dict(fh.describe({"kind": kind, "desc": desc, "rp": rp}), **extra,
+                                   python="props.c04.check_instance(fh.BUILDERS[kind](desc))"), True)
+    stats["star_queried_before_heuristic"] = n_star
     for case in fh.gen_objects(rng, count, max_n, stats=stats, mf_prob=0.6, after_query_prob=0.5):
         rp, kind, desc = case["rp"], case["kind"], case["desc"]
         d, S, out, info, problems = check_instance(rp)
